@@ -25,8 +25,15 @@ struct Case
     int per_producer = 1000;
     int rounds = 1;
     int perturb = 0;    // spin inserted at the hook sites of the containers (0 none)
+    int burners = 0;    // additional busy threads: the container's threads get preempted in the middle of their operations (long stalls)
 };
 
+static long long g_avoided = 0;
+[[maybe_unused]] static bool avoid_deque_stall()
+{
+    char const* e = std::getenv("VERIF_AVOID");
+    return e && std::strstr(e, "deque_preempted_operation") != nullptr;
+}
 static Case decode(tape_t const& tape)
 {
     Tape t(tape);
@@ -37,6 +44,7 @@ static Case decode(tape_t const& tape)
     c.per_producer = t.pick({200, 2000, 20000});
     c.rounds = 1 + static_cast<int>(t.below(3));
     c.perturb = t.pick({0, 0, 1, 2});
+    c.burners = t.pick({0, 0, 16, 40});
     return c;
 }
 static std::string describe(tape_t const& tape)
@@ -44,7 +52,7 @@ static std::string describe(tape_t const& tape)
     Case c = decode(tape);
     std::ostringstream os;
     os << "{\"container\": \"" << kind_names[c.kind] << "\", \"producers\": " << c.producers << ", \"consumers\": " << c.consumers << ", \"per_producer\": " << c.per_producer
-       << ", \"rounds\": " << c.rounds << ", \"perturb\": " << c.perturb << "}";
+       << ", \"rounds\": " << c.rounds << ", \"perturb\": " << c.perturb << ", \"busy_threads_competing_for_cpus\": " << c.burners << "}";
     return os.str();
 }
 
@@ -118,8 +126,13 @@ static std::string run_generic(Case const& c, PushF push, PopF pop, long long& s
 
 static Outcome run(tape_t const& tape)
 {
+    g_avoided = 0;
     Case c = decode(tape);
     g_perturb = c.perturb;
+    std::atomic<bool> burn_stop{false};
+    std::vector<std::thread> burn;
+    for (int i = 0; i < c.burners; ++i) burn.emplace_back([&] { while (!burn_stop.load(std::memory_order_relaxed)) {} });
+    struct StopBurn { std::atomic<bool>& f; std::vector<std::thread>& t; ~StopBurn() { f = true; for (auto& x : t) x.join(); } } stop_burn{burn_stop, burn};
     pika::verif::hook.store(&stress_hook);
     using V = std::uint64_t;
     namespace td = pika::threads::detail;
@@ -191,6 +204,8 @@ static Outcome run(tape_t const& tape)
     Outcome out;
     if (!err.empty()) out = Outcome::fail(err.find("twice") != std::string::npos ? "element_twice" : err.find("never put") != std::string::npos ? "element_invented" : "element_lost", std::string(kind_names[c.kind]) + ": " + err);
     out.counters["elements_moved"] = ops;
+    out.counters["avoided"] = g_avoided;
+    if (c.burners) out.tags.push_back("has:oversubscribed_cpus");
     out.nontrivial = c.producers + c.consumers >= 3 && c.per_producer >= 2000;
     out.tags.push_back(std::string("container:") + kind_names[c.kind]);
     return out;
@@ -208,7 +223,8 @@ int main(int argc, char** argv)
     T.run = run;
     T.signature = [](tape_t const& tape, Outcome const& o) {
         Case c = decode(tape);
-        return std::string("{\"oracle\": ") + jstr(o.oracle) + ", \"container\": " + jstr(kind_names[c.kind]) + "}";
+        bool deque_backed = c.kind == K_DEQUE || c.kind == K_ABP_FIFO || c.kind == K_ABP_LIFO || c.kind == K_LIFO;
+        return std::string("{\"oracle\": ") + jstr(o.oracle) + ", \"container\": " + jstr(kind_names[c.kind]) + ", \"backend\": " + (deque_backed ? "\"lock-free deque\"" : "\"other\"") + ", \"threads\": \"real\"}";
     };
     return target_main(argc, argv, T);
 }
